@@ -5,7 +5,7 @@ disappears from the audit output or its statement snapshot changes."""
 import re, os, json, glob
 ROOT = os.path.dirname(os.path.dirname(os.path.abspath(__file__)))
 reg = {}
-for f in sorted(glob.glob(os.path.join(ROOT, 'lean', 'MdIt', 'Audit', 'C*.lean'))):
+for f in sorted(glob.glob(os.path.join(ROOT, 'lean', 'MdIt', 'Audit', '*.lean'))):
     pid = os.path.basename(f)[:-5]
     src = re.sub(r'/-.*?-/', '', open(f).read(), flags=re.S)
     src = re.sub(r'--.*', '', src)
